@@ -11,9 +11,13 @@
     `SymLin n B`   B(u+v) = Bu+Bv, B(c u) = c Bu, ⟨u,Bv⟩ = ⟨Bu,v⟩ on vectors of dimension n
                    (any symmetric operator: PD, singular, indefinite, zero)
     `0 < Δ`
-    `g ≠ 0`        FORCED: at g = 0 the code computes 0/0 in `get_boundaries_intersections` and returns
-                   a NaN step and value (PANTR counts a direction failure).  The point is run on the
-                   real code by `checks/c11.py` on every run and its behaviour documented there.
+    `g ≠ 0`        only in the loop-level statements (invariants, monotonicity, interior / boundary
+                   classification): for `g = 0` the repaired `solve`
+                   (fixes/C11-steihaug-zero-gradient.diff; known-findings
+                   `C11-steihaug-zero-gradient-returns-nan`, fixed) returns the origin with value 0
+                   before the loop — `steihaug_zero_gradient`.  The guarantees themselves are stated
+                   for EVERY gradient in `steihaug_every_gradient`; `newtonTR_value_is_full_model` has
+                   no hypothesis on the reduced gradient any more.
   The two statements at the top of the file need no hypothesis at all and hold for every carrier,
   `Float` included.
 
@@ -80,23 +84,38 @@ theorem cgLoop_shape (fuel : Nat) (st : St α) (hf : 1 ≤ fuel ∧ maxIter + 2 
       omega
 
 /-- `while (true)` terminates: the model's recursion budget is never what ends a run, and the loop
-    performs at most `max(max_iter, -1) + 2` iterations. -/
+    performs at most `max(max_iter, -1) + 2` iterations (none for a zero gradient). -/
 theorem never_fuel (tolMax tolScale tolRoot : α) :
     (steihaug cs B g Δ tolMax tolScale tolRoot maxIter).exit ≠ .fuel ∧
     Int.ofNat (steihaug cs B g Δ tolMax tolScale tolRoot maxIter).st.i ≤ max (maxIter + 1) 0 := by
   have := cgLoop_shape cs B g Δ (cgTolerance tolMax tolScale tolRoot (cgInit g).2.2.2) maxIter
     (cgFuel maxIter) (cgStart g) (by simp only [cgFuel, cgStart]; omega)
-  exact ⟨this.1, this.2.2⟩
+  unfold steihaug
+  split_ifs
+  · exact ⟨by simp, by simp [cgStart]⟩
+  · exact ⟨this.1, this.2.2⟩
 
-/-- `model_value_exact`, carrier-independent form: unless the NaN exit was taken, the returned value
-    is `eval` (i.e. `p·g + 0.5 * p·(B p)`, the generated `cgEval`) of the returned step — the code
-    recomputes it from the step and never carries it along. -/
+/-- `model_value_exact`, carrier-independent form: unless the NaN exit was taken (or the gradient is
+    zero: then step and value are both `0`), the returned value is `eval` (i.e.
+    `p·g + 0.5 * p·(B p)`, the generated `cgEval`) of the returned step — the code recomputes it from
+    the step and never carries it along. -/
 theorem value_is_eval_of_step (tolMax tolScale tolRoot : α)
-    (h : (steihaug cs B g Δ tolMax tolScale tolRoot maxIter).exit ≠ .alphaNaN) :
+    (h : (steihaug cs B g Δ tolMax tolScale tolRoot maxIter).exit ≠ .alphaNaN)
+    (hz : (steihaug cs B g Δ tolMax tolScale tolRoot maxIter).exit ≠ .zeroGrad) :
     (steihaug cs B g Δ tolMax tolScale tolRoot maxIter).q =
-      cgEval B g (steihaug cs B g Δ tolMax tolScale tolRoot maxIter).s :=
-  (cgLoop_shape cs B g Δ (cgTolerance tolMax tolScale tolRoot (cgInit g).2.2.2) maxIter
-    (cgFuel maxIter) (cgStart g) (by simp only [cgFuel, cgStart]; omega)).2.1 h
+      cgEval B g (steihaug cs B g Δ tolMax tolScale tolRoot maxIter).s := by
+  unfold steihaug at h hz ⊢
+  split_ifs at h hz ⊢ with hc
+  · exact absurd rfl hz
+  · exact (cgLoop_shape cs B g Δ (cgTolerance tolMax tolScale tolRoot (cgInit g).2.2.2) maxIter
+      (cgFuel maxIter) (cgStart g) (by simp only [cgFuel, cgStart]; omega)).2.1 h
+
+/-- Zero gradient, every carrier (IEEE doubles included): when the test `‖g‖ == 0` of `solve` fires,
+    the result is the origin with value `0`, and no Hessian product is evaluated. -/
+theorem zero_gradient_any_carrier (tolMax tolScale tolRoot : α)
+    (h : cgZeroGrad (cgInit g).2.2.2 = true) :
+    steihaug cs B g Δ tolMax tolScale tolRoot maxIter = ⟨zeros g.length, 0, .zeroGrad, cgStart g, 0⟩ := by
+  unfold steihaug; rw [if_pos h]
 
 end anycarrier
 
@@ -156,7 +175,7 @@ theorem exit_kinds :
     (steihaug cs B g Δ tolMax tolScale tolRoot maxIter).exit = .interior := by
   obtain ⟨st, hr, hs⟩ := run_returns_from_visited tolMax tolScale tolRoot maxIter L hB hg hΔ hg0
   have E := reach_exit L hB hg hΔ (sqNorm_pos_of_ne_zeros g hg0) hr hs
-  have h1 := E.not_fuel; have h2 := E.not_nan
+  have h1 := E.not_fuel; have h2 := E.not_nan; have h3 := E.not_zero
   cases h : (steihaug cs B g Δ tolMax tolScale tolRoot maxIter).exit <;> simp_all [Exit.isBoundary]
 
 /-- **step_in_region**: `‖s‖² ≤ Δ²`; boundary returns have `‖s‖² = Δ²`, interior ones `‖s‖² < Δ²`. -/
@@ -292,7 +311,7 @@ theorem boundary_answers :
   · intro hneg
     have hk : (steihaug cs B g Δ tolMax tolScale tolRoot maxIter).exit = .negCurvA ∨
         (steihaug cs B g Δ tolMax tolScale tolRoot maxIter).exit = .negCurvB := by
-      have hp := E.pos; have h1 := E.not_fuel; have h2 := E.not_nan
+      have hp := E.pos; have h1 := E.not_fuel; have h2 := E.not_nan; have h3 := E.not_zero
       cases hx : (steihaug cs B g Δ tolMax tolScale tolRoot maxIter).exit <;> simp_all <;>
         (exfalso; linarith)
     refine ⟨hk, E.bdry ?_⟩
@@ -301,6 +320,67 @@ theorem boundary_answers :
     exact ⟨E.pos (Or.inl ho), E.over ho, E.bdry (by simp [ho, Exit.isBoundary])⟩
 
 end steihaug
+
+/-! ### Steihaug CG for **every** gradient (zero included) -/
+section everygradient
+variable {α : Type} [Field α] [LinearOrder α] [IsStrictOrderedRing α] [RealLike α]
+variable {cs : α → α → α} {n : Nat} {B : Vec α → Vec α} {g : Vec α} {Δ : α}
+variable (tolMax tolScale tolRoot : α) (maxIter : Int)
+variable (L : Lawful cs) (hB : SymLin n B) (hg : g.length = n) (hΔ : 0 < Δ)
+
+theorem sqNorm_zeros (k : Nat) : sqNorm (zeros k : Vec α) = 0 := by
+  rw [sqNorm_eq_dot, dot_zeros_left]
+
+include L in
+/-- **Zero gradient** (the point the code used to answer with NaN): `solve` returns the origin with
+    value `0`, before the loop — no Hessian product, no division. -/
+theorem steihaug_zero_gradient (h0 : g = zeros g.length) :
+    (steihaug cs B g Δ tolMax tolScale tolRoot maxIter).s = zeros g.length ∧
+    (steihaug cs B g Δ tolMax tolScale tolRoot maxIter).q = 0 ∧
+    (steihaug cs B g Δ tolMax tolScale tolRoot maxIter).exit = .zeroGrad := by
+  have hs : sqNorm g = 0 := by rw [h0]; exact sqNorm_zeros _
+  rw [steihaug_zero_grad L tolMax tolScale tolRoot hs]
+  exact ⟨rfl, rfl, rfl⟩
+
+include L hB hg hΔ in
+/-- **The trust-region guarantees for every gradient** — symmetric `B` (PD, singular, indefinite,
+    zero), radius `> 0`, all dimensions and parameters, `g = 0` included: the returned step has the
+    right dimension and norm `≤ Δ`; the returned value is `gᵀs + ½sᵀBs` of that very step, is `≤ 0`
+    and `≤` the model at every point `−t g`, `t ≥ 0`, of the steepest-descent ray inside the region
+    (hence `≤` the Cauchy point); and the run ended on the boundary, by an interior exit, or — only
+    for `g = 0` — with the origin. -/
+theorem steihaug_every_gradient :
+    (steihaug cs B g Δ tolMax tolScale tolRoot maxIter).s.length = n ∧
+    sqNorm (steihaug cs B g Δ tolMax tolScale tolRoot maxIter).s ≤ Δ * Δ ∧
+    (steihaug cs B g Δ tolMax tolScale tolRoot maxIter).q =
+      dot g (steihaug cs B g Δ tolMax tolScale tolRoot maxIter).s +
+        1 / 2 * dot (steihaug cs B g Δ tolMax tolScale tolRoot maxIter).s
+          (B (steihaug cs B g Δ tolMax tolScale tolRoot maxIter).s) ∧
+    (steihaug cs B g Δ tolMax tolScale tolRoot maxIter).q ≤ 0 ∧
+    (∀ t : α, 0 ≤ t → t * t * sqNorm g ≤ Δ * Δ →
+      (steihaug cs B g Δ tolMax tolScale tolRoot maxIter).q ≤ model B g (smul (-t) g)) ∧
+    ((steihaug cs B g Δ tolMax tolScale tolRoot maxIter).exit.isBoundary = true ∨
+     (steihaug cs B g Δ tolMax tolScale tolRoot maxIter).exit = .interior ∨
+     ((steihaug cs B g Δ tolMax tolScale tolRoot maxIter).exit = .zeroGrad ∧ g = zeros g.length)) := by
+  by_cases h0 : g = zeros g.length
+  · obtain ⟨hs, hq, he⟩ := steihaug_zero_gradient tolMax tolScale tolRoot maxIter L (B := B) (Δ := Δ) h0
+    rw [hs, hq, he]
+    refine ⟨by rw [length_zeros, hg], by rw [sqNorm_zeros]; exact (mul_pos hΔ hΔ).le, ?_, le_refl _, ?_,
+      Or.inr (Or.inr ⟨rfl, h0⟩)⟩
+    · rw [dot_zeros_right, dot_zeros_left]; ring
+    · intro t _ _
+      unfold model
+      rw [h0, dot_zeros_left, dot_smul_left, dot_zeros_left]
+      simp
+  · have hr := step_in_region tolMax tolScale tolRoot maxIter L hB hg hΔ h0
+    refine ⟨hr.1, hr.2.1, model_value_exact tolMax tolScale tolRoot maxIter L hB hg hΔ h0,
+      value_le_zero tolMax tolScale tolRoot maxIter L hB hg hΔ h0,
+      fun t ht hin => le_cauchy tolMax tolScale tolRoot maxIter L hB hg hΔ h0 t ht hin, ?_⟩
+    rcases exit_kinds tolMax tolScale tolRoot maxIter L hB hg hΔ h0 with h | h
+    · exact Or.inl h
+    · exact Or.inr (Or.inl h)
+
+end everygradient
 
 /-! ### Newton-TR (`NewtonTRDirection::apply`, exact-Hessian branch) -/
 section ntr
@@ -654,7 +734,7 @@ variable {cs : α → α → α} {H : Vec α → Vec α} {J : List Nat} {γ : α
 theorem newtonTR_value_is_full_model (L : Lawful cs) {o : NtrOut α}
     (h : newtonTR cs H J γ p hvf radius epsMach tolMax tolScale tolRoot maxIter = some o)
     (hH : SymLin p.length H) (hn : J.Nodup) (hJ : ∀ j ∈ J, j < p.length) (hγ : γ ≠ 0)
-    (hrad : 0 < radius) (hg0 : ntrG H J γ p hvf ≠ zeros (ntrG H J γ p hvf).length) :
+    (hrad : 0 < radius) :
     o.val = mFull H J γ hvf p o.q ∧
     mFull H J γ hvf p o.q ≤ mFull H J γ hvf p (overlay p J (zeros J.length)) ∧
     mFull H J γ hvf p (overlay p J (zeros J.length))
@@ -662,18 +742,19 @@ theorem newtonTR_value_is_full_model (L : Lawful cs) {o : NtrOut α}
   have hB := newtonTR_operator_symLin (H := H) hH hn hJ
   have hlen := length_ntrG (H := H) (J := J) (γ := γ) (p := p) (hvf := hvf)
   obtain ⟨h1, h2⟩ := newtonTR_return h
+  have hall := steihaug_every_gradient tolMax tolScale tolRoot maxIter L hB hlen hrad
   have hq : o.q = overlay (overlay p J (zeros J.length)) J o.cg.s := by
     rw [newtonTR_eq] at h
     split_ifs at h with hc
     simp only [Option.some.injEq] at h
     subst h; rfl
   have hsl : o.cg.s.length = J.length := by
-    rw [h1]; exact (step_in_region tolMax tolScale tolRoot maxIter L hB hlen hrad hg0).1
+    rw [h1]; exact hall.1
   have hval : o.val = mFull H J γ hvf p o.q := by
     rw [hq, mFull_combined H J γ hvf p o.cg.s hH hn hJ hsl hγ, h2]
     congr 1
     rw [h1]
-    exact model_value_exact tolMax tolScale tolRoot maxIter L hB hlen hrad hg0
+    exact hall.2.2.1
   have hz : mFull H J γ hvf p (overlay p J (zeros J.length))
       = -(sqNorm (gather (complement J p.length) p) / (2 * γ)) := by
     have := mFull_combined H J γ hvf p (zeros J.length) hH hn hJ (length_zeros _) hγ
@@ -683,7 +764,7 @@ theorem newtonTR_value_is_full_model (L : Lawful cs) {o : NtrOut α}
   refine ⟨hval, ?_, hz⟩
   rw [← hval, hz, h2]
   have : o.cg.q ≤ 0 := by
-    rw [h1]; exact value_le_zero tolMax tolScale tolRoot maxIter L hB hlen hrad hg0
+    rw [h1]; exact hall.2.2.2.1
   linarith
 
 end fullmodel
@@ -723,11 +804,8 @@ example : ∃ o : NtrOut ℝ,
     rw [h1, h2]
     simp
   obtain ⟨o, ho⟩ := hsome
-  have hg : ntrG (matVec ([[2, 1], [1, -3]] : List (Vec ℝ))) [1] 1 [1, 2] 1 ≠
-      zeros (ntrG (matVec ([[2, 1], [1, -3]] : List (Vec ℝ))) [1] 1 [1, 2] 1).length := by
-    rw [ntrG_example]; simp [zeros]
   obtain ⟨hv, hle, hz⟩ := newtonTR_value_is_full_model lawful_real ho (symLin_indefinite ℝ)
-    (by decide) (by decide) one_ne_zero one_pos hg
+    (by decide) (by decide) one_ne_zero one_pos
   refine ⟨o, ho, hv, ?_, ?_⟩
   · have := (newtonTR_active_eq_fb ho).2.1 0 (by decide)
     simpa [vget] using this
@@ -738,6 +816,17 @@ example : ∃ o : NtrOut ℝ,
       simp [gather, complement, vget, List.range, List.range.loop]
     rw [hK]
     norm_num [sqNorm_eq_dot, dot_cons]
+
+/-- The zero gradient itself, over `ℝ`: `solve` on `g = (0,0)`, indefinite `B`, radius 1 returns the
+    origin with value 0 (the unrepaired code returned NaN here), and all conclusions of
+    `steihaug_every_gradient` hold for it. -/
+example :
+    (steihaug csReal (matVec [[2, 1], [1, -3]]) [0, 0] 1 1 1 (1/2) 2).s = [0, 0] ∧
+    (steihaug csReal (matVec [[2, 1], [1, -3]]) [0, 0] 1 1 1 (1/2) 2).q = 0 ∧
+    sqNorm (steihaug csReal (matVec [[2, 1], [1, -3]]) [0, 0] 1 1 1 (1/2) 2).s ≤ 1 * 1 := by
+  obtain ⟨hs, hq, _⟩ := steihaug_zero_gradient (B := matVec ([[2, 1], [1, -3]] : List (Vec ℝ))) (Δ := 1)
+    1 1 (1/2) 2 lawful_real (g := ([0, 0] : Vec ℝ)) rfl
+  exact ⟨hs, hq, (steihaug_every_gradient 1 1 (1/2) 2 lawful_real (symLin_indefinite ℝ) rfl one_pos).2.1⟩
 
 end fullexamples
 
